@@ -531,6 +531,16 @@ func (c14Engine) Exec(t *testing.T, cc any) *simrt.Result {
 			cl.Do(simrt.Op{Kind: "send", Msg: &simrt.Msg{T: "EVENT", EvObj: e}})
 		}
 		sim.Drive()
+		if injected >= 1 {
+			// intake goes on while the inserter sits in its back-off: ephemeral
+			// events (never stored, so the expected answers stay those of the batch)
+			st.Probe("intake_during_backoff")
+			for i := 0; i < 3; i++ {
+				sp := simrt.EvSpec{Author: 1, Kind: 20001, CreatedAt: int64(2000 + i), Content: fmt.Sprintf("late-%d", i)}
+				cl.Do(simrt.Op{Kind: "send", Msg: &simrt.Msg{T: "EVENT", EvObj: sp.Event()}})
+			}
+			sim.Drive()
+		}
 		st.Fault("retry-backoff")
 		sim.Advance(1*time.Second + 10*time.Millisecond) // first back-off
 		sim.Advance(2*time.Second + 10*time.Millisecond) // second back-off
